@@ -66,6 +66,8 @@ def _tok(ctx, spelling):
 
 def check(ctx, rep):
     from . import c06, _share
+    from . import c05 as _c05
+    _share.share(ctx, rep, _c05, ('no-operand-mutation', 'negabs.'), 'evaluating an expression never changes a variable that occurs in it: operators work on copies', tolerate_missing_anchor=True)
     _share.share(ctx, rep, c06, ('float-gt', 'float-eq', 'relation.', 'int-gt'), 'relational operators return -1 / 0 according to the derived comparison primitives', tolerate_missing_anchor=True)
     prec, unary, binary = vm.operator_tables(ctx)
     for path, k, _ in ctx.cf.duplicates:
